@@ -149,8 +149,11 @@ def colB : Str := [116, 101, 114, 109, 95, 98]
 def colV : Str := [105, 99, 95, 109, 105, 99, 97]
 def headerRow : List Str := [colA, colB, colV]
 
-/-- the data rows `to_csv` hands to the csv writer: one `[left, right, str(value)]` per listed item -/
-def dataRows (repr : Int → Str) (s : State) : List (List Str) := (items s).map (fun t => [t.1, t.2.1, repr t.2.2])
+/-- the data rows a writer hands to the csv writer for a list of items: `[left, right, str(value)]` each -/
+def rowsOf (repr : Int → Str) (L : List (Str × Str × Int)) : List (List Str) := L.map (fun t => [t.1, t.2.1, repr t.2.2])
+
+/-- the rows of today's `to_csv`: the listed items in `items()` order -/
+def dataRows (repr : Int → Str) (s : State) : List (List Str) := rowsOf repr (items s)
 
 /-- what `from_csv` does with one `DictReader` record: `(record['term_a'], record['term_b'], float(record['ic_mica']))` -/
 def recordOp (parse : Str → Option Int) (rec : List (Str × Str)) : Option Op :=
@@ -164,25 +167,26 @@ def fromRecords (parse : Str → Option Int) (recs : List (List (Str × Str))) :
 
 /-- **`to_csv` then `from_csv`, from container to container.** For every history of the container, every metadata the
 writer accepts, every way of writing a value that the reader's `float(...)` undoes (`parse (repr v) = some v`; for Python:
-`float(repr(x)) == x`), every title line and any quoting beyond necessity: the file - title comment, metadata comment,
-the physical lines of the csv text for the header row and one row per listed item - is read back (header filter,
-`_parse_meta`, csv state machine, `DictReader`, one `set_similarity` per record) into a container that answers every read,
-in either key order, like the one that was written, with the same metadata. Term ids may contain anything. -/
+`float(repr(x)) == x`), every title line, any quoting beyond necessity and ANY ORDER in which the writer lists the items
+(`L` is a rearrangement of `items()`): the file - title comment, metadata comment, the physical lines of the csv text for
+the header row and one row per item - is read back (header filter, `_parse_meta`, csv state machine, `DictReader`, one
+`set_similarity` per record) into a container that answers every read, in either key order, like the one that was
+written, with the same metadata. Term ids may contain anything. -/
 theorem container_file_round_trip (forb : List Nat) (htab : TableOk forb = true) (m : Meta) (hm : MetaOk forb m) (title : Str)
     (force : Nat → Nat → Bool) (repr : Int → Str) (parse : Str → Option Int) (hpr : ∀ v, parse (repr v) = some v)
-    (ops : List Op) :
+    (ops : List Op) (L : List (Str × Str × Int)) (hperm : L.Perm (items (run ops))) :
     ∃ s recs st', encodeMeta forb m = .ok s ∧
       parseMeta (unframe (frame title s (Hpv.Csv.splitLines
-        (Hpv.Csv.writeRows force 0 (headerRow :: dataRows repr (run ops)))))).1 = .ok m ∧
+        (Hpv.Csv.writeRows force 0 (headerRow :: rowsOf repr L))))).1 = .ok m ∧
       Hpv.Csv.readDict (unframe (frame title s (Hpv.Csv.splitLines
-        (Hpv.Csv.writeRows force 0 (headerRow :: dataRows repr (run ops)))))).2.flatten = .ok (headerRow, recs) ∧
+        (Hpv.Csv.writeRows force 0 (headerRow :: rowsOf repr L))))).2.flatten = .ok (headerRow, recs) ∧
       fromRecords parse recs = some st' ∧ ∀ x y, get st' x y = get (run ops) x y ∧ get st' x y = get st' y x := by
-  have hrs : ∀ r ∈ dataRows repr (run ops), r ≠ [] := by
+  have hrs : ∀ r ∈ rowsOf repr L, r ≠ [] := by
     intro r hr
     obtain ⟨t, _, rfl⟩ := List.mem_map.mp hr
     simp
   obtain ⟨s, h1, h2, h3⟩ := file_round_trip forb htab m hm title force 116 [101, 114, 109, 95, 97] [colB, colV]
-    (dataRows repr (run ops)) (by decide) hrs
+    (rowsOf repr L) (by decide) hrs
   have hhead : ((116 : Nat) :: [101, 114, 109, 95, 97]) :: [colB, colV] = headerRow := rfl
   rw [hhead] at h2 h3
   have hrec : ∀ (L : List (Str × Str × Int)),
@@ -200,12 +204,12 @@ theorem container_file_round_trip (forb : List Nat) (htab : TableOk forb = true)
         simp [recordOp, ha, hb, hv, hpr, itemOp]
       simp only [List.map_cons, List.mapM_cons, h0, ih]
       rfl
-  refine ⟨s, _, rebuild (run ops), h1, h2, h3, ?_, ?_⟩
-  · unfold fromRecords dataRows
-    rw [hrec (items (run ops))]
+  refine ⟨s, _, run (L.map itemOp), h1, h2, h3, ?_, ?_⟩
+  · unfold fromRecords rowsOf
+    rw [hrec L]
     rfl
   · intro x y
-    exact ⟨rebuild_get (run ops) (wf_run ops) x y, get_comm _ x y⟩
+    exact ⟨rebuild_any_order (run ops) (wf_run ops) L hperm x y, get_comm _ x y⟩
 
 /-- `to_csv` stamps the metadata with `created` first, so what it encodes is never empty. -/
 theorem stamped_nonempty (m : Meta) (ts : Str) : upsert createdKey ts m ≠ [] := by
